@@ -366,14 +366,29 @@ func (fe *FuncEnc) enterLoop(f *Frame, li *loopInfo, reach Term, st *State) (Ter
 	// havoc
 	st = st.clone()
 	mods := fe.eng.loopModset(f.fn, li)
+	preAlloc := map[string]Term{}
+	for c := range mods {
+		if owner, ok := fe.eng.compOwner[c]; ok && !fe.eng.notCtorOnly[c] {
+			if _, done := preAlloc[owner]; !done {
+				preAlloc[owner] = fe.atom(fe.comp(st, owner, arrSort(SInt, SBool)))
+				st.heap[owner] = preAlloc[owner]
+			}
+		}
+	}
 	for _, c := range sortStrings(mods) {
 		s, ok := fe.eng.compSorts[c]
 		if !ok {
 			continue // component never materialised: nothing to havoc
 		}
 		old := fe.comp(st, c, s)
+		if strings.HasPrefix(c, "A_") {
+			old = fe.atom(old)
+		}
 		nw := fe.fresh(c+"_L", s)
 		st.heap[c] = nw
+		if owner, ok := fe.eng.compOwner[c]; ok && !fe.eng.notCtorOnly[c] {
+			fe.ctorFrame(st, c, old, nw, preAlloc[owner])
+		}
 		if strings.HasPrefix(c, "A_") {
 			fe.assume(tBool(true), Term{fmt.Sprintf("(forall ((r Int)) (! (=> (select %s r) (select %s r)) :pattern ((select %s r))))", old.S, nw.S, old.S), SBool})
 		}
@@ -393,6 +408,9 @@ func (fe *FuncEnc) enterLoop(f *Frame, li *loopInfo, reach Term, st *State) (Ter
 		if phi.Comment == "rangeindex" {
 			fe.assume(reach, tLe(tInt(-1), nv))
 			f.iterOf[h] = tAdd(nv, tInt(1))
+			if lim := rangeLimit(h, phi); lim != nil {
+				fe.assume(reach, tLt(nv, fe.val(lim)))
+			}
 		}
 	}
 	if f.mon != nil {
@@ -429,7 +447,11 @@ func (fe *FuncEnc) backEdge(f *Frame, li *loopInfo, from *ssa.BasicBlock, cond T
 			break
 		}
 		if phi.Comment == "rangeindex" {
-			fe.emit("inv.step", fmt.Sprintf("loop%d.rangeindex", li.ord), cond, tLe(tInt(-1), phiVal(phi)), "-1 <= index", pos)
+			g := tLe(tInt(-1), phiVal(phi))
+			if lim := rangeLimit(h, phi); lim != nil {
+				g = tAnd(g, tLt(phiVal(phi), fe.val(lim)))
+			}
+			fe.emit("inv.step", fmt.Sprintf("loop%d.rangeindex", li.ord), cond, g, "-1 <= index < len", pos)
 		}
 	}
 	if f.mon != nil {
@@ -506,12 +528,12 @@ func (fe *FuncEnc) step(f *Frame, in ssa.Instruction, st *State, path Term) {
 		case *types.Slice:
 			s := fe.val(x.X)
 			fe.emit("safety.index", fe.srcLabel(x.Pos(), "index"), path, tAnd(tLe(tInt(0), idx), tLt(idx, slLen(s))), "index in range", x.Pos())
-			f.addrs[x] = &Addr{Comp: "E_" + sortKey(so.sortOf(t.Elem())), Kind: aElem, Ref: slRef(s), Idx: fe.define("ix", tAdd(slOff(s), idx)), Typ: t.Elem()}
+			f.addrs[x] = &Addr{Comp: "E_" + so.elemKey(t.Elem()), Kind: aElem, Ref: slRef(s), Idx: fe.define("ix", tAdd(slOff(s), idx)), Typ: t.Elem()}
 		case *types.Pointer:
 			arr := t.Elem().Underlying().(*types.Array)
 			ref := fe.val(x.X)
 			fe.emit("safety.index", fe.srcLabel(x.Pos(), "index"), path, tAnd(tLe(tInt(0), idx), tLt(idx, tInt(arr.Len()))), "index in range", x.Pos())
-			f.addrs[x] = &Addr{Comp: fe.eng.arrayComp(x.X, so.sortOf(arr.Elem())), Kind: aElem, Ref: ref, Idx: idx, Typ: arr.Elem()}
+			f.addrs[x] = &Addr{Comp: fe.eng.arrayComp(x.X, arr.Elem()), Kind: aElem, Ref: ref, Idx: idx, Typ: arr.Elem()}
 		default:
 			engErr("IndexAddr on %s", x.X.Type())
 		}
@@ -561,8 +583,9 @@ func (fe *FuncEnc) step(f *Frame, in ssa.Instruction, st *State, path Term) {
 		cp := fe.val(x.Cap)
 		es := so.sortOf(x.Type().Underlying().(*types.Slice).Elem())
 		fe.emit("safety.makeslice", fe.srcLabel(x.Pos(), "call"), path, tAnd(tLe(tInt(0), ln), tLe(ln, cp)), "0 <= len <= cap", x.Pos())
-		ref := fe.allocRef(st, "A_E_"+sortKey(es), path)
-		comp := "E_" + sortKey(es)
+		ek := so.elemKey(x.Type().Underlying().(*types.Slice).Elem())
+		ref := fe.allocRef(st, "A_E_"+ek, path)
+		comp := "E_" + ek
 		e := fe.comp(st, comp, arrSort(SInt, arrSort(SInt, es)))
 		fe.setComp(st, comp, tStore(e, ref, so.zeroOfSort(arrSort(SInt, es))))
 		fe.setVal(x, mkSlice(ref, tInt(0), ln, cp))
@@ -659,8 +682,8 @@ func (fe *FuncEnc) doAlloc(f *Frame, x *ssa.Alloc, st *State, path Term) {
 	switch u := elem.Underlying().(type) {
 	case *types.Array:
 		es := so.sortOf(u.Elem())
-		ref := fe.allocRef(st, "A_E_"+sortKey(es), path)
-		comp := fe.eng.arrayComp(x, es)
+		ref := fe.allocRef(st, "A_E_"+so.elemKey(u.Elem()), path)
+		comp := fe.eng.arrayComp(x, u.Elem())
 		e := fe.comp(st, comp, arrSort(SInt, arrSort(SInt, es)))
 		fe.setComp(st, comp, tStore(e, ref, so.zeroOfSort(arrSort(SInt, es))))
 		f.vals[x] = ref
@@ -1122,4 +1145,25 @@ func (fe *FuncEnc) doNext(f *Frame, x *ssa.Next, st *State, path Term) {
 	st.heap["RN_"+id] = fe.define("RN", tAdd(n, tInt(1)))
 	f.tuples[x] = []Term{ok, k, v}
 	fe.assumes["map iteration yields an arbitrary not-yet-visited key per step (Go's unspecified order); termination of the range by cardinality"] = true
+}
+
+// rangeLimit: for go/ssa's rangeindex idiom (phi; inc = phi+1; inc < len) returns the len value, defined before the loop.
+func rangeLimit(h *ssa.BasicBlock, phi *ssa.Phi) ssa.Value {
+	var inc ssa.Value
+	for _, in := range h.Instrs {
+		if b, ok := in.(*ssa.BinOp); ok {
+			if b.Op == token.ADD && b.X == ssa.Value(phi) {
+				inc = b
+			}
+			if b.Op == token.LSS && inc != nil && b.X == inc {
+				if c, isCall := b.Y.(*ssa.Call); isCall && c.Block() != h {
+					// the limit must not be negative for the entry edge: len(...) of a slice never is
+					if bi, ok := c.Common().Value.(*ssa.Builtin); ok && bi.Name() == "len" {
+						return b.Y
+					}
+				}
+			}
+		}
+	}
+	return nil
 }
